@@ -89,6 +89,11 @@ def build(case: dict[str, Any]) -> list[dict[str, Any]]:
     tasks = case["tasks"]  # list of (script, site, in_inner)
     body: list[dict[str, Any]] = []
     inner_body: list[dict[str, Any]] = []
+    if case.get("pre"):
+        # before anything is spawned a nested scope fails to enter (a resource raises, is cancelled, or cancels at a suspension) and the
+        # body absorbs that: the spawns that follow still belong to `blk`
+        body.append({"op": "block", "kind": "ascope", "name": "pre", "supply": [], "body": [], "catch": True,
+                     "disposables": [{"yield": [], "enter": "ok", "exit": "ok"}, {"yield": [], "enter": case["pre"], "exit": "ok"}][-(1 + len(tasks) % 2):]})
     for i, (script, site, in_inner) in enumerate(tasks):
         name = f"t{i}"
         owner = "inner" if in_inner else "blk"
@@ -260,11 +265,19 @@ def cases(tier: str, rng: random.Random):  # noqa: ANN201
                 case = {"tasks": [[s, "plain", False] for s in scripts], "body": body, "disp": disp}
                 if valid(case):
                     yield case
+    for pre in ("raise", "raise-cancelled", "gate-raise-cancelled", "gate-raise"):
+        for body in BODIES[:3]:
+            for scripts in (("gate",), ("now",), ("gate", "gate"), ("spawn-gate",), ("forever",)):
+                case = {"tasks": [[s, "plain", False] for s in scripts], "body": body, "pre": pre}
+                if valid(case):
+                    yield case
     for _ in range(SAMPLE[tier]):
         n = rng.randint(2, 4)
         case = {"tasks": [[rng.choice(SCRIPTS), rng.choice(SITES), rng.random() < 0.35] for _ in range(n)], "body": rng.choice(BODIES), "inner_exit": rng.choice(["return", "return", "raise-exc", "cancel-self"]), "body_gate": rng.random() < 0.8}
         if rng.random() < 0.3:
             case["disp"] = [rng.choice(["ok", "gate", "raise", "gate-raise"]) for _ in range(rng.randint(1, 2))]
+        if rng.random() < 0.15:
+            case["pre"] = rng.choice(["raise", "raise-cancelled", "gate-raise-cancelled", "gate-raise"])
         if valid(case):
             yield case
 
